@@ -3,6 +3,7 @@
 until the connection closes ExaBGP must write: nothing after a NOTIFICATION, at most one NOTIFICATION, as the last
 message, with the code / subcode of the error class; and no NOTIFICATION at all in answer to a NOTIFICATION."""
 import asyncio
+import socket
 import struct
 
 from .registry import bounded, replayer, harness_canary
@@ -43,6 +44,12 @@ def faults():
     f['open with router-id 0.0.0.0'] = (S.open_msg(rid='0.0.0.0'), {'OPENSENT': (2, 3), 'OPENCONFIRM': [(2, 3), (5, 2)], 'ESTABLISHED': [(2, 3), (5, 3), MAY_GO_ON]})
     f['open with hold time 1'] = (S.open_msg(hold=1), {'OPENSENT': (2, 6), 'OPENCONFIRM': [(2, 6), (5, 2)], 'ESTABLISHED': [(2, 6), (5, 3), MAY_GO_ON]})
     f['open with hold time 2'] = (S.open_msg(hold=2), {'OPENSENT': (2, 6), 'OPENCONFIRM': [(2, 6), (5, 2)], 'ESTABLISHED': [(2, 6), (5, 3), MAY_GO_ON]})
+    # RFC 4271 6.2: an optional parameter which is not recognized -> Unsupported Optional Parameters (2/4); authentication
+    # information (parameter 1, deprecated by RFC 4271) -> 2/5 is what RFC 1771 said, 2/4 what RFC 4271 says
+    _body = bytes([4]) + struct.pack('!HH', 65002, 180) + socket.inet_aton('10.0.0.9')
+    f['open with an unknown optional parameter (type 3)'] = (S.msg(1, _body + bytes([3, 3, 1, 0])), {'OPENSENT': (2, 4), 'OPENCONFIRM': [(2, 4), (5, 2)], 'ESTABLISHED': [(2, 4), (5, 3), MAY_GO_ON]})
+    f['open with an unknown optional parameter after the capabilities'] = (S.msg(1, _body + bytes([11, 2, 6, 1, 4, 0, 1, 0, 1, 200, 1, 0])), {'OPENSENT': (2, 4), 'OPENCONFIRM': [(2, 4), (5, 2)], 'ESTABLISHED': [(2, 4), (5, 3), MAY_GO_ON]})
+    f['open with authentication information (parameter 1)'] = (S.msg(1, _body + bytes([3, 1, 1, 0])), {'OPENSENT': [(2, 4), (2, 5)], 'OPENCONFIRM': [(2, 4), (2, 5), (5, 2)], 'ESTABLISHED': [(2, 4), (2, 5), (5, 3), MAY_GO_ON]})
     # shorter than the minimum OPEN (29): a header error whatever the state (RFC 4271 6.1)
     f['open of 24 bytes'] = (S.msg(1, bytes([4, 0xFD, 0xEA, 0, 180])), {'*': (1, 2)})
     f['a second well-formed open'] = (S.open_msg(), {'OPENCONFIRM': (5, 2), 'ESTABLISHED': [(5, 3), MAY_GO_ON]})
